@@ -159,6 +159,10 @@ def templates(TA, TB):
         ("cell-plus-assign", [["set", "m", ["expr", ["mut", None, a]]], E(["bin", "+=", V("m"), b]), E(V("m"))]),
         ("ifset", [["stm", ["ifset", "y", TB, a, ["block", E(["tuple", I(1), V("y")])], ["block", E(["tuple", I(0), a])]]]]),
         ("match-type", [["stm", ["match", a, ["atype", "y", TB, ["block", E(["tuple", I(1), V("y")])]], ["aother", ["block", E(["tuple", I(0), a])]]]]]),
+        ("match-type-only", [["stm", ["match", a, ["atype", "y", TB, ["block", E(["tuple", I(1), V("y")])]]]]]),
+        ("match-type-two-arms", [["stm", ["match", a, ["atype", "y", TB, ["block", E(I(1))]], ["atype", "z", TA, ["block", E(I(2))]]]]]),
+        ("cell-plus-assign-value", [["set", "m", ["expr", ["mut", TA, a]]], E(["tuple", ["bin", "+=", V("m"), b], V("m")])]),
+        ("cell-assign-value", [["set", "m", ["expr", ["mut", TA, a]]], E(["tuple", ["bin", "=", V("m"), b], V("m")])]),
         ("match-value", [["stm", ["match", a, ["aval", [b], ["block", E(I(1))]], ["aother", ["block", E(I(0))]]]]]),
         ("typefilter-collect", [E(["post", ["tfilter", ["post", ["array", a, b], "~"], TB], "$]"])]),
         ("typefilter-first", [["set", "it", ["expr", ["tfilter", ["post", ["array", a, b, a], "~"], TA]]], E(["call", V("it")])]),
